@@ -151,7 +151,7 @@ pub fn c04(o: &Opts) -> Outcome {
             }
         }
     }
-    if o.thorough {
+    {
         // a single k-mer more than 2^24 times in one record (exactness of the accumulated counts at scale)
         let big = vec![vec![b'A'; 17_000_000], b"ACGTAC".to_vec()];
         for norm in [false, true] {
